@@ -2,6 +2,7 @@
 from rules import limits as LM
 from rules import misc as M
 from rules import tables as T
+from rules import operators as OP
 
 
 def run(ctx):
@@ -11,6 +12,8 @@ def run(ctx):
     ctx.run(M.ord13_top_n_limit_zero)
     ctx.run(M.ord16_partials_combined_in_partition_order)
     ctx.run(T.tbl13_comparators)
+    ctx.run(OP.nul3_sentinel_survives_casts)
+    ctx.run(OP.pan5_result_type_lattice_total)
     return ctx.finish(
         'MIR dataflow: interprocedural taint of values read from LimitClause fields (the limit may '
         'be the sentinel u64::MAX); no unchecked + / * on such a value and no unchecked subtraction '
